@@ -32,6 +32,8 @@ def apply(ctx, W):
             &&& forall|k: ItemPath| #![trigger final(self).modules@[k]] old(self).modules@.contains_key(k) && Some(k) != spec_parent(item_definition.path)
                     ==> final(self).modules@[k] == old(self).modules@[k]
             &&& module_scope(&final(self).modules@[spec_parent(item_definition.path)->0]) == module_scope(&old(self).modules@[spec_parent(item_definition.path)->0])
+            &&& final(self).modules@[spec_parent(item_definition.path)->0].extern_values == old(self).modules@[spec_parent(item_definition.path)->0].extern_values
+            &&& final(self).modules@[spec_parent(item_definition.path)->0].definition_paths@ == old(self).modules@[spec_parent(item_definition.path)->0].definition_paths@.insert(item_definition.path)
         })""",
         "res is Err ==> *final(self) == *old(self)",
         "spec_parent(item_definition.path) is Some && old(self).modules@.contains_key(spec_parent(item_definition.path)->0) ==> res is Ok",
